@@ -46,7 +46,7 @@ def all_ops(k, rich=True):
     nodes = list(range(k))
     ops = []
     for n in nodes:
-        for v in [None] + nodes + ["other"]:
+        for v in [None] + nodes + ["other", "other0"]:
             ops.append(["set_parent", n, v])
         ops.append(["del_children", n])
         seqs = []
@@ -60,7 +60,7 @@ def all_ops(k, rich=True):
             ops.append(["set_children", n, [None]])
             ops.append(["set_children", n, [nodes[-1], "other"]])
             ops.append(["set_children", n, ["other", nodes[0], nodes[0]]])
-    for p in [None] + nodes + ["other"]:
+    for p in [None] + nodes + ["other", "other0"]:
         ops.append(["construct", p, None])
     for p in [None] + nodes[:1]:
         for c in [[], "notiterable"] + [[x] for x in nodes] + ([[nodes[0], nodes[-1]], [nodes[-1], nodes[-1]]] if k >= 2 else []):
@@ -70,12 +70,12 @@ def all_ops(k, rich=True):
 
 def uses_non_node(op):
     if op[0] == "set_parent":
-        return op[2] == "other"
+        return op[2] in ("other", "other0")
     if op[0] == "set_children":
         return op[2] != "notiterable" and any(v is None or v == "other" for v in op[2])
     if op[0] == "construct":
         c = op[2]
-        return op[1] == "other" or (isinstance(c, list) and any(v is None or v == "other" for v in c))
+        return op[1] in ("other", "other0") or (isinstance(c, list) and any(v is None or v == "other" for v in c))
     return False
 
 
@@ -105,7 +105,7 @@ def heap_lit(heap):
 def value_lit(v):
     if v is None:
         return "VNone"
-    if v == "other":
+    if v in ("other", "other0"):
         return "VOther"
     return "(VNode %s)" % L.nat(v)
 
